@@ -544,6 +544,52 @@ class Interp:
             except OverflowError as e:
                 raise Unsupported("SOFTMAX: %s" % e)
             return [np.asarray(out, I64).reshape(x.shape)]
+        if code in ("EXP", "LOG", "SQRT", "GELU") and T[ins[0]]["dtype"] == "int16" and ot["dtype"] == "int16":
+            # 16-bit: the reference populates a 513-entry table (LUTPopulate<int16>: sample minus half the mid-point interpolation error) and interpolates linearly over the low
+            # seven bits (LUTLookup); evaluated in double here (float in the kernels: one step of tolerance).  Inputs whose interval touches the outside of the function's
+            # domain are undefined for the comparison.
+            it = T[ins[0]]
+            x = self.get(values, ins[0]).astype(I64)
+            si, zi = qparams(it)
+            so, zo = qparams(ot)
+            zi, zo = int(zi[0]), int(zo[0])
+            s_in, s_out = float(si[0]), float(so[0])
+            if code == "GELU" and opts.get("Approximate", False):
+                fn = lambda r: 0.5 * r * (1 + math.tanh(math.sqrt(2 / math.pi) * (r + 0.044715 * r ** 3)))
+            elif code == "GELU":
+                fn = lambda r: 0.5 * r * (1 + math.erf(r / math.sqrt(2)))
+            elif code == "EXP":
+                fn = lambda r: math.exp(min(r, 700.0))
+            elif code == "LOG":
+                fn = lambda r: math.log(r) if r > 0 else -1e30
+            else:
+                fn = lambda r: math.sqrt(r) if r > 0 else 0.0
+            imin, imax = s_in * (-32768 - zi), s_in * (32767 - zi)
+            omin, omax = s_out * (-32768 - zo), s_out * (32767 - zo)
+            step = (imax - imin) / 512
+            inv = 65536.0 / (omax - omin)
+            rnd = tflref.tflite_round
+            lut = []
+            for i in range(512):
+                val, mid, nxt = fn(imin + i * step), fn(imin + i * step + step / 2), fn(imin + (i + 1) * step)
+                sample = rnd(min(max(val * inv, -1e12), 1e12))
+                interp = rnd((min(max(nxt * inv, -1e12), 1e12) + sample) / 2)
+                bias = rnd((interp - rnd(min(max(mid * inv, -1e12), 1e12))) / 2)
+                lut.append(min(max(sample - bias, -32768), 32767))
+            lut.append(min(max(rnd(min(max(fn(imax) * inv, -1e12), 1e12)), -32768), 32767))
+            lut = np.asarray(lut, I64)
+            idx = 256 + (x >> 7)
+            off = x & 0x7F
+            r = lut[idx] + (((lut[idx + 1] - lut[idx]) * off + 64) >> 7)
+            if code in ("LOG", "SQRT"):
+                # entry i covers real inputs from imin + i*step: every element whose interval starts at or below zero is outside the domain (or interpolates from it)
+                real_lo = imin + idx * step
+                m = real_lo <= (0.0 if code == "LOG" else -1e-30)
+                if code == "SQRT":
+                    m = real_lo < 0
+                if m.any():
+                    self.undef[o["outputs"][0]] = m
+            return [np.clip(r, -32768, 32767)]
         if code in ("EXP", "LOG", "SQRT", "GELU", "RSQRT"):
             # 8-bit: the reference populates a 256-entry table round(f(dequantised)/output scale) + zero point (float32 there, double here: one step of tolerance);
             # RSQRT is fixed-point in the reference (value 0 -> type maximum, negative values are an error), compared against the real function with the same tolerance
